@@ -46,12 +46,13 @@ Fixpoint cdone (p : cprog) (s : S) : list nat :=
                                 end
   end.
 
-(* every throw of the library formats a message: message number 1 (any non-empty one) *)
+(* every throw of the library formats a message: message number 1 (any non-empty one); the message
+   arguments of the library's own throws are Ints, Strings and Types, whose Show runs no try block: PSkip *)
 Fixpoint compile (p : cprog) (s : S) : prog :=
   match p with
   | CSkip => PSkip
   | COp n o => match first_failure S nat (guards S nat o) s with
-               | Some e => PThrow e 1
+               | Some e => PThrow e 1 PSkip
                | None => PTick n
                end
   | CSeq p q => PSeq (compile p s) (compile q (fst (crun p s)))
